@@ -3,6 +3,7 @@ import Driver.C04
 import Driver.C03
 import Driver.C05
 import Driver.C02
+import Driver.C18
 /-!
 Line-protocol driver: one request per line on stdin, one answer per line on stdout.
 Only model files are imported (no proofs, no Mathlib), so this links as a native executable.
@@ -22,6 +23,9 @@ def dispatch (line : String) : String :=
     | "sq" => cmdSq args
     | "enc" => cmdEnc args
     | "dec" => cmdDec args
+    | "comp" => cmdComp args
+    | "cdec" => cmdCdec args
+    | "menc" => cmdMenc args
     | _ => "bad-op"
 
 partial def loop (h : IO.FS.Stream) (out : IO.FS.Stream) : IO Unit := do
